@@ -13,6 +13,8 @@ type walkOpts struct {
 	roots, prove, lookups, updateData bool
 	nHist, nBlocks, maxAdd            int
 	rows                              []uint8
+	partRows                          []uint8 // partial map forests
+	prune                             bool    // prune random remembered leaves between blocks
 }
 
 func emitRoots(e *emitter, is *implSet) {
@@ -25,6 +27,11 @@ func emitRoots(e *emitter, is *implSet) {
 	for _, m := range is.maps {
 		if !is.dead[mapName(m)] {
 			e.line("ROOTS %s %d %s", mapName(m), m.GetNumLeaves(), hs(m.GetRoots()))
+		}
+	}
+	for _, pi := range is.parts {
+		if !is.dead[mapName(pi.m)] {
+			e.line("ROOTS %s %d %s", mapName(pi.m), pi.m.GetNumLeaves(), hs(pi.m.GetRoots()))
 		}
 	}
 }
@@ -175,6 +182,7 @@ func walk(cfg runCfg, e *emitter, rng *rand.Rand, o walkOpts) {
 		e.line("RESET")
 		rf := &refForest{}
 		is := newImplSet(o.rows)
+		is.addPartials(o.partRows)
 		maxAdd := 1 + rng.Intn(o.maxAdd)
 		nb := 2 + rng.Intn(o.nBlocks)
 		var dead []u.Hash
@@ -210,6 +218,28 @@ func walk(cfg runCfg, e *emitter, rng *rand.Rand, o walkOpts) {
 					}
 					rp, _ := rf.prove(req)
 					emitHonestVerify(e, is, req, rp)
+				}
+				// partial forests prove any sub-list of what they remember
+				for _, pi := range is.parts {
+					if is.dead[mapName(pi.m)] {
+						continue
+					}
+					R := sortedSet(pi.R)
+					for k := 0; k < 2 && len(R) > 0; k++ {
+						rng.Shuffle(len(R), func(i, j int) { R[i], R[j] = R[j], R[i] })
+						sub := append([]u.Hash{}, R[:1+rng.Intn(len(R))]...)
+						emitProve(e, mapName(pi.m), pi.m, sub)
+					}
+					if o.prune && len(R) > 1 && rng.Intn(3) == 0 {
+						sub := append([]u.Hash{}, R[:1+rng.Intn(len(R)-1)]...)
+						if err := pi.m.Prune(sub); err != nil {
+							e.hfail("Prune."+mapName(pi.m), "%v", err)
+						}
+						for _, h := range sub {
+							delete(pi.R, h)
+						}
+						e.count("prunes")
+					}
 				}
 			}
 
@@ -252,6 +282,13 @@ func walk(cfg runCfg, e *emitter, rng *rand.Rand, o walkOpts) {
 					})
 				}
 			}
+			if len(is.parts) > 0 {
+				rem := make([]bool, len(adds))
+				for i := range rem {
+					rem[i] = rng.Intn(2) == 0
+				}
+				is.applyPartials(e, dels, adds, proof, rem)
+			}
 			rf.apply(dels, adds)
 			dead = append(dead, dels...)
 			e.line("BLOCK %s %s", hs(dels), hs(adds))
@@ -286,11 +323,11 @@ func tierN(cfg runCfg, quick, thorough int) int {
 func init() {
 	generators["C01"] = func(cfg runCfg, e *emitter, rng *rand.Rand) {
 		walk(cfg, e, rng, walkOpts{roots: true, nHist: tierN(cfg, 300, 6000), nBlocks: 11, maxAdd: tierN(cfg, 9, 40),
-			rows: []uint8{0, 1, 3, 5, 31, 50, 63}})
+			rows: []uint8{0, 1, 3, 5, 31, 50, 63}, partRows: []uint8{0, 3, 63}})
 	}
 	generators["C02"] = func(cfg runCfg, e *emitter, rng *rand.Rand) {
 		walk(cfg, e, rng, walkOpts{prove: true, nHist: tierN(cfg, 150, 3000), nBlocks: 9, maxAdd: tierN(cfg, 9, 30),
-			rows: []uint8{0, 3, 50, 63}})
+			rows: []uint8{0, 3, 50, 63}, partRows: []uint8{0, 4, 63}, prune: true})
 	}
 	generators["C10"] = func(cfg runCfg, e *emitter, rng *rand.Rand) {
 		walk(cfg, e, rng, walkOpts{lookups: true, nHist: tierN(cfg, 120, 2000), nBlocks: 8, maxAdd: tierN(cfg, 8, 20),
